@@ -60,7 +60,15 @@ class Box(AbstractSpace[Float[Array, " ..."], None]):
         return self.low.shape
 
     def canonical(self) -> Float[Array, " ..."]:
-        return (self.low + self.high) / 2
+        bounded_below = jnp.isfinite(self.low)
+        bounded_above = jnp.isfinite(self.high)
+        return jnp.where(
+            bounded_below & bounded_above,
+            self.low / 2 + self.high / 2,
+            jnp.where(
+                bounded_below, self.low, jnp.where(bounded_above, self.high, 0.0)
+            ),
+        )
 
     def sample(self, *, key: Key[Array, ""], mask: None = None) -> Float[Array, " ..."]:
         bounded_key, unbounded_key, upper_bounded_key, lower_bounded_key = jr.split(
